@@ -567,3 +567,32 @@ def arc_and_box_page(r, block, frame=True):
             page[(0, y)] = "|"
             page[(W - 1, y)] = "|"
     return "\n".join("".join(page.get((x, y), " ") for x in range(W)).rstrip() for y in range(H)), bx, by
+
+
+def run_in_box_under_diagonal(r):
+    """a long diagonal from the top left corner and, in the triangle under it, a box with a short free run inside (touching
+    nothing): the run lies in the bounding boxes of two separate shapes that both come before it"""
+    run = r.choice(["---", "--", "~~~", "==", "|", "___", "----"])
+    iw, ih = len(run) + 2 + r.randint(0, 3), 3              # (a blank cell between the run and every wall)
+    bw = iw + 2
+    top = bw + 2 + r.randint(0, 2)              # the box's first row: the diagonal is already two columns to its right there
+    L = top + ih + 2 + r.randint(1, 3)
+    g = [[" "] * (L + 1) for _ in range(L)]
+    for i in range(L):
+        g[i][i] = r.choice(["\\"]) 
+    x0 = r.randint(0, 1)
+    for x in range(x0, x0 + bw):
+        g[top][x] = "-"
+        g[top + ih + 1][x] = "-"
+    for y in range(top, top + ih + 2):
+        g[y][x0] = "|"
+        g[y][x0 + bw - 1] = "|"
+    for (x, y) in ((x0, top), (x0 + bw - 1, top), (x0, top + ih + 1), (x0 + bw - 1, top + ih + 1)):
+        g[y][x] = "+"
+    ry = top + 1 + ih // 2
+    if run == "|":
+        g[ry][x0 + 2] = "|"
+    else:
+        for i, ch in enumerate(run):
+            g[ry][x0 + 2 + i] = ch
+    return "\n".join("".join(row).rstrip() for row in g)
